@@ -108,6 +108,40 @@ sys.exit(1 if bad else 0)
 '''
 
 
+REPLAY_STALE = '''
+from vlib import build, refmodel
+import numpy as np, tempfile, os, shutil, sys, glob, hashlib
+import h5py
+top = tempfile.mkdtemp(); ch = os.path.join(top, 'ch')
+cfg = dict(n=10, d=1, sc=3600, fc=1000, start=10**10)
+bad = 0
+for cont in (0, 1):
+  for second in (False, True):
+    for case in ('stale tmp in a free period', 'stale tmp next to its finalized file'):
+        shutil.rmtree(ch, ignore_errors=True); os.makedirs(ch)
+        # session 1 finalizes period 0 (samples 0..9); a killed recorder left garbage under a tmp. name
+        rw = refmodel.RealWriter(build, ch, cfg['n'], cfg['d'], cfg['sc'], cfg['fc'], cfg['start'], cont)
+        rw.write_blocks([0], [0], np.arange(5, dtype=np.int16).reshape(-1, 1)); rw.close()
+        fin = glob.glob(os.path.join(ch, '*', 'rf@*.h5'))[0]; sub = os.path.dirname(fin)
+        h0 = hashlib.md5(open(fin, 'rb').read()).hexdigest()
+        k = 1 if case.startswith('stale tmp in') else 0
+        open(os.path.join(sub, 'tmp.rf@%d.000.h5' % (10**9 + k)), 'wb').write(b'garbage of a killed recorder')
+        # session 2 starts inside the period of the stale file, then closes
+        rw = refmodel.RealWriter(build, ch, cfg['n'], cfg['d'], cfg['sc'], cfg['fc'], cfg['start'], cont)
+        r1 = rw.write_blocks([10 * k + 2], [0], (np.arange(3, dtype=np.int16) + 100).reshape(-1, 1)) if rw.obj else 'NULL'
+        r2 = rw.write_blocks([10 * k + 6], [0], (np.arange(2, dtype=np.int16) + 200).reshape(-1, 1)) if (rw.obj and second) else None
+        if rw.obj: rw.close()
+        if hashlib.md5(open(fin, 'rb').read()).hexdigest() != h0: print('cont=%d, %s: the finalized file of session 1 changed (writes returned %r, %r)' % (cont, case, r1, r2)); bad = 1
+        for f in sorted(glob.glob(os.path.join(ch, '*', 'rf@*.h5'))):
+            try:
+                with h5py.File(f, 'r') as h: h['rf_data'].shape
+            except Exception as e:
+                print('cont=%d, %s: final-named file %s is not a valid data file (%s); writes returned %r, %r' % (cont, case, os.path.basename(f), type(e).__name__, r1, r2)); bad = 1
+shutil.rmtree(top)
+sys.exit(1 if bad else 0)
+'''
+
+
 def report(rep, specs, results, select, sigmap=None, label='write path'):
     """fold per-configuration results into obligations of `rep`.  select(name) -> bool chooses the obligations of this property."""
     by_ob = {}
@@ -140,6 +174,9 @@ def report(rep, specs, results, select, sigmap=None, label='write path'):
         else:
             real = wrun.realise(sp, nm)
         sig = (sigmap or {}).get(nm, 'W1.' + nm[:40])
+        if nm.startswith('only files this writer created and closed'):
+            rep.violation(nm, sig, 'fails in "%s": %s' % (sp['name'], str(m)[:300]), replay_body=REPLAY_STALE, bounds=sp['name'], sample={'model': str(m)[:400]})
+            continue
         if nm.startswith(SESSION_OBLIGATIONS):
             # obligations about files of an earlier session: replayed as a two-session recording on the real build
             rep.violation(nm, sig, 'fails in "%s": %s' % (sp['name'], str(m)[:300]), replay_body=REPLAY_SESSION, bounds=sp['name'], sample={'model': str(m)[:400]})
@@ -198,7 +235,10 @@ def session_specs(tier, modes=MODES):
         S.append(dict(name=name, n=1, d=1, sc=1, fc=1000, cont=cont, chunk=chunk, calls=calls, cost=cost, checker='session', fresh=False, getters=False, **kw))
     for mname, cont, chunk in modes:
         add('%s: later session, 2 calls (<=2 files, then 1 file), any finalized file may already exist' % mname, cont, chunk, [call(1, 2), call(1, 1)], 10)
+        add('%s: later session after a kill, 1 call (<=2 files) then close, any finalized file and any stale tmp. file may already exist' % mname, cont, chunk,
+            [call(1, 2)], 4, stale_tmp=True)
         if tier == 'thorough': add('%s: later session, 2 calls (<=2 files each)' % mname, cont, chunk, [call(1, 2), call(1, 2)], 40)
+        if tier == 'thorough': add('%s: later session after a kill, 2 calls (<=2 files, then 1 file), stale tmp. files may exist' % mname, cont, chunk, [call(1, 2), call(1, 1)], 40, stale_tmp=True)
         if tier == 'thorough' and not cont:
             add('%s: later session, 2 blocks then 1 block' % mname, cont, chunk, [call(2, 2), call(1, 2)], 40)
     return S
